@@ -406,3 +406,195 @@ func checkFoundGuards(r *core.Result, prog *core.Program, lp *packages.Package) 
 	}
 	return n
 }
+
+// checkLazyMisc (C13/C14): small structural rules that the lookup code relies on.
+//   L-negtag   a negative tag (raw access) is normalised by exactly a sign flip before it is searched
+//   X-dedup    the sorted tag tables are de-duplicated (a tag and its negative may both be requested)
+//   L-error    no error result of an in-package call is dropped, and every error test is `err != nil` leaving with an error
+//   L-make     a slice created with a non-zero length is not then used as the base of append (nil / zero entries in front)
+func checkLazyMisc(r *core.Result, prog *core.Program, lp *packages.Package) {
+	info := lp.TypesInfo
+	nNeg, nErr := 0, 0
+	for _, f := range core.Funcs(lp) {
+		if f.Decl == nil || f.Decl.Body == nil {
+			continue
+		}
+		// L-negtag: find `if X < 0 { … }` where X is an int parameter / range key that is later binary-searched or appended to a tag table
+		ast.Inspect(f.Decl.Body, func(nn ast.Node) bool {
+			is, ok := nn.(*ast.IfStmt)
+			if !ok || is.Init != nil || is.Else != nil {
+				return true
+			}
+			b, ok := is.Cond.(*ast.BinaryExpr)
+			if !ok {
+				return true
+			}
+			id, ok := b.X.(*ast.Ident)
+			if !ok || !(strings.Contains(strings.ToLower(id.Name), "tag") || id.Name == "k") {
+				return true
+			}
+			if tv := info.Types[b.Y]; tv.Value == nil || tv.Value.ExactString() != "0" {
+				// comparisons of a tag with something other than 0 are not the normalisation
+				if b.Op == token.LSS || b.Op == token.LEQ || b.Op == token.GTR || b.Op == token.GEQ {
+					return true
+				}
+				return true
+			}
+			if len(is.Body.List) != 1 {
+				return true
+			}
+			as, ok := is.Body.List[0].(*ast.AssignStmt)
+			if !ok || len(as.Lhs) != 1 || len(as.Rhs) != 1 {
+				return true
+			}
+			lid, ok := as.Lhs[0].(*ast.Ident)
+			if !ok || info.Uses[lid] != info.Uses[id] {
+				return true
+			}
+			nNeg++
+			okFlip := false
+			switch as.Tok {
+			case token.MUL_ASSIGN:
+				if tv := info.Types[as.Rhs[0]]; tv.Value != nil && tv.Value.ExactString() == "-1" {
+					okFlip = true
+				}
+			case token.ASSIGN:
+				if u, ok := as.Rhs[0].(*ast.UnaryExpr); ok && u.Op == token.SUB {
+					if rid, ok := u.X.(*ast.Ident); ok && info.Uses[rid] == info.Uses[id] {
+						okFlip = true
+					}
+				}
+			}
+			r.Ob("L-negtag", fmt.Sprintf("%s :: a negative tag is normalised by a sign flip", f.Name), prog.Pos(is.Pos()), b.Op == token.LSS && okFlip,
+				"expected `if tag < 0 { tag *= -1 }`: the negative form of a tag denotes raw access to the same field number; any other normalisation looks up another field (or none)")
+			return true
+		})
+		// L-error
+		if strings.HasSuffix(prog.Fset.Position(f.Decl.Pos()).Filename, "_test.go") {
+			continue
+		}
+		nErr += checkErrorTests(r, prog, info, "L-error", f.Name, f.Decl.Body)
+		parents := parentMap(f.Decl.Body)
+		ast.Inspect(f.Decl.Body, func(nn ast.Node) bool {
+			c, ok := nn.(*ast.CallExpr)
+			if !ok {
+				return true
+			}
+			fn := staticCallee(info, c)
+			if fn == nil || fn.Pkg() == nil || (fn.Pkg() != lp.Types && fn.Pkg().Path() != csp) {
+				return true
+			}
+			res := fn.Type().(*types.Signature).Results()
+			if res.Len() == 0 || res.At(res.Len()-1).Type().String() != "error" {
+				return true
+			}
+			// explicit discard `_ = f()` is a decision, not a drop
+			if as, ok := parents[c].(*ast.AssignStmt); ok {
+				allBlank := true
+				for _, l := range as.Lhs {
+					if id, ok := l.(*ast.Ident); !ok || id.Name != "_" {
+						allBlank = false
+					}
+				}
+				if allBlank {
+					return true
+				}
+			}
+			if _, isRet := parents[c].(*ast.ReturnStmt); isRet {
+				return true
+			}
+			okProp, why := errorIsReturned(info, c, parents)
+			if !okProp {
+				// the error variable is returned later as it is, or tested as a disjunct `err != nil || …`
+				if as, ok := parents[c].(*ast.AssignStmt); ok && len(as.Lhs) >= 1 {
+					if eid, ok := as.Lhs[len(as.Lhs)-1].(*ast.Ident); ok && eid.Name != "_" {
+						eobj := info.Defs[eid]
+						if eobj == nil {
+							eobj = info.Uses[eid]
+						}
+						ast.Inspect(f.Decl.Body, func(m ast.Node) bool {
+							switch x := m.(type) {
+							case *ast.ReturnStmt:
+								if x.Pos() > c.Pos() && len(x.Results) > 0 {
+									if id, ok := x.Results[len(x.Results)-1].(*ast.Ident); ok && info.Uses[id] == eobj {
+										okProp = true
+									}
+								}
+							case *ast.BinaryExpr:
+								if x.Pos() > c.Pos() && x.Op == token.NEQ && isNilIdentExpr(x.Y) {
+									if id, ok := x.X.(*ast.Ident); ok && info.Uses[id] == eobj {
+										okProp = true
+									}
+								}
+							}
+							return true
+						})
+					}
+				}
+			}
+			nErr++
+			r.Ob("L-error", fmt.Sprintf("%s :: error of %s reaches the caller", f.Name, types.ExprString(c.Fun)), prog.Pos(c.Pos()), okProp, why)
+			return true
+		})
+		// L-make
+		ast.Inspect(f.Decl.Body, func(nn ast.Node) bool {
+			as, ok := nn.(*ast.AssignStmt)
+			if !ok || len(as.Lhs) != 1 || len(as.Rhs) != 1 {
+				return true
+			}
+			c, ok := as.Rhs[0].(*ast.CallExpr)
+			if !ok || len(c.Args) < 3 {
+				return true
+			}
+			if id, ok := c.Fun.(*ast.Ident); !ok || id.Name != "make" {
+				return true
+			}
+			tv := info.Types[c.Args[1]]
+			if tv.Value == nil || tv.Value.ExactString() == "0" {
+				return true
+			}
+			lid, ok := as.Lhs[0].(*ast.Ident)
+			if !ok {
+				return true
+			}
+			obj := info.Defs[lid]
+			if obj == nil {
+				obj = info.Uses[lid]
+			}
+			appended := false
+			ast.Inspect(f.Decl.Body, func(m ast.Node) bool {
+				if ac, ok := m.(*ast.CallExpr); ok && len(ac.Args) >= 1 {
+					if id, ok := ac.Fun.(*ast.Ident); ok && id.Name == "append" {
+						if a0, ok := ac.Args[0].(*ast.Ident); ok && info.Uses[a0] == obj {
+							appended = true
+						}
+					}
+				}
+				return true
+			})
+			r.Ob("L-make", fmt.Sprintf("%s :: %s is not appended to", f.Name, types.ExprString(c)), prog.Pos(c.Pos()), !appended,
+				"a slice made with a non-zero length and an explicit capacity is used as the base of append: the result starts with zero / nil entries")
+			return true
+		})
+	}
+	r.Floor("negative-tag normalisations", nNeg, 4)
+	r.Floor("error tests and error-returning calls in lazyproto", nErr, 20)
+	// X-dedup
+	if nb := core.FindFunc(lp, "(*Decoder).newBaseResult"); nb != nil {
+		compacted := map[string]bool{}
+		ast.Inspect(nb.Decl.Body, func(n ast.Node) bool {
+			if as, ok := n.(*ast.AssignStmt); ok && len(as.Lhs) == 1 && len(as.Rhs) == 1 {
+				if c, ok := as.Rhs[0].(*ast.CallExpr); ok && len(c.Args) == 1 {
+					if fn := staticCallee(info, c); fn != nil && fn.Pkg() != nil && fn.Pkg().Path() == "slices" && fn.Name() == "Compact" && fieldOfSel(as.Lhs[0]) == fieldOfSel(c.Args[0]) {
+						compacted[fieldOfSel(as.Lhs[0])] = true
+					}
+				}
+			}
+			return true
+		})
+		for _, fld := range []string{"flatTags", "nestedTags"} {
+			r.Ob("X-dedup", "DecodeResult."+fld+" is de-duplicated when the base result is built", prog.Pos(nb.Pos()), compacted[fld],
+				"a tag and its negative (raw) form may both be requested; without slices.Compact the table holds the tag twice and the per-tag tables indexed by position no longer line up")
+		}
+	}
+}
